@@ -41,6 +41,11 @@ def run(cx):
         # the eligible set is computed either as `known_peers.values().filter(<closure>).cloned().collect()` or by the
         # written-out loop `for info in known_peers.values() { if <tests> { continue } eligible.push(info.clone()) }`
         fl = [c for c in hc.calls_to("core::iter::traits::iterator::Iterator::filter") if not hc.is_cleanup(c.bb)]
+        fmap = False
+        if not fl:
+            # `.filter_map(|info| <tests>.then(|| info.clone()))` - the same predicate, its value handed to bool::then
+            fl = [c for c in hc.calls_to("core::iter::traits::iterator::Iterator::filter_map") if not hc.is_cleanup(c.bb)]
+            fmap = bool(fl)
         nxs = [c for c in hc.calls() if not hc.is_cleanup(c.bb) and name_matches(c.fn, "Iterator::next")
                and term_has_call(ho.of_operand(c.args[0]), "HashMap::values") and term_has_call(ho.of_operand(c.args[0]), f"{CM}::KnownPeers::inner")]
         loop_form = not fl and len(nxs) == 1
@@ -54,8 +59,29 @@ def run(cx):
             kw_words = {}
 
             def is_pi(t):
-                return mentions_param(t, "peer_info")
-            ELIG["term"] = lambda t: term_has_call(t, "Iterator::filter") and term_has_call(t, "Iterator::collect")
+                return mentions_param(t, "peer_info") or any(x[0] == "param" and x[1] == 2 for x in walk(t))
+            RES = 0          # the local holding the predicate's value: the closure's return slot ...
+            if fmap:
+                bo_ = Origins(b)
+                th = [c for c in b.calls() if not b.is_cleanup(c.bb) and name_matches(c.fn, ("bool::then", "bool::then_some")) and c.dest == 0]
+                ob.floor(th, 1, "`<predicate>.then(|| info.clone())` as the filter_map closure's result", exact=True)
+                RES = place_local(op_place(th[0].args[0])) if op_place(th[0].args[0]) is not None else None      # ... or the bool given to then()
+                for _ in range(4):
+                    ds_ = [d for d in b.defs().get(RES, []) if d[0] != "partial"]
+                    if len(ds_) == 1 and ds_[0][0] == "assign" and ds_[0][3]["k"] == "use" and isinstance(op_place(ds_[0][3]["op"]), int):
+                        RES = op_place(ds_[0][3]["op"])
+                    else:
+                        break
+                pay = strip_identity(bo_.of_operand(th[0].args[1]))
+                okp = False
+                if pay[0] == "agg" and pay[1] == "closure" and pay[2] in prog.bodies:
+                    r_ = strip_identity(Origins(prog.bodies[pay[2]]).of_local(0))
+                    cap = [strip_identity(x) for x in pay[3]]
+                    okp = (r_[0] == "upvar" or (r_[0] == "call" and name_matches(r_[1], "Clone::clone"))) and len(cap) == 1 and is_pi(cap[0])      # (clone is an identity step of terms)
+                elif name_matches(th[0].fn, "bool::then_some"):
+                    okp = pay[0] == "call" and name_matches(pay[1], "Clone::clone") and is_pi(pay)
+                ob.require(okp, "eligible/filter-map-yields-the-peer", f"the filter_map closure yields {show(pay)[:80]}, not a clone of the inspected peer", b.path)
+            ELIG["term"] = lambda t: (term_has_call(t, "Iterator::filter_map") if fmap else term_has_call(t, "Iterator::filter")) and term_has_call(t, "Iterator::collect")
         else:
             ob.count(1)
             src = ho.of_operand(nxs[0].args[0])
@@ -66,6 +92,7 @@ def run(cx):
             if len(some_t) != 1:
                 raise AnchorLost("`Some(info)` edge of the eligibility loop")
             kw_words = {"start": some_t[0], "stops": [head]}
+            RES = 0
 
             def is_pi(t):
                 return term_has_call(t, "Iterator::next") and term_has_call(t, "HashMap::values") and term_has_call(t, f"{CM}::KnownPeers::inner")
@@ -137,7 +164,7 @@ def run(cx):
             return None
 
         def stmt_sym(bbi, s, o):
-            if s["lhs"] == 0:
+            if s["lhs"] == RES and getattr(o, "body", b) is b:
                 rv = s["rv"]
                 if rv["k"] == "use" and rv["op"].get("k") == "const" and rv["op"].get("ty") == "bool":
                     return "ret=" + ("true" if rv["op"]["int"] else "false")
@@ -149,7 +176,7 @@ def run(cx):
                 if name_matches(c.fn, "vec::Vec::push"):
                     return "ret=true" if (c.bb == pushes[0].bb and term_has_call(o.of_operand(c.args[1]), "Clone::clone")) else "push(?)"
                 return None
-            if c.dest == 0 and not b.is_cleanup(c.bb):
+            if c.dest == RES and getattr(o, "body", b) is b and not b.is_cleanup(c.bb):
                 t = strip_identity(("call", c.fn, tuple(o.of_operand(a) for a in c.args), c.bb))
                 if name_matches(c.fn, ("cmp::PartialOrd::gt", "cmp::PartialOrd::ge", "cmp::PartialOrd::lt", "cmp::PartialOrd::le")) and len(t[2]) == 2:
                     x_, y_ = t[2]
